@@ -88,4 +88,85 @@ def coldChunkOk (g : Graph) (r : Mod) (skip : Mod → Bool) (ms : List Mod) : Bo
     s1.isPresent r && ms.all (fun m => viaOk g (fresh g) s1 r m && (skip m || okB (importChain g s1 (g.chain m))))
   | _ => false
 
+/-! ## pairs: a second import after a first one -/
+
+/-- for every `(a, ms)` of `pairs` with `a` outside `skip` and not already loaded by the root package: `a` imports
+from `s1`, and from the resulting state every `m ∈ ms` outside `skip` imports -/
+def pairsOk (g : Graph) (s1 : State) (skip : Mod → Bool) (pairs : List (Mod × List Mod)) : Bool :=
+  pairs.all (fun p => skip p.1 || s1.isPresent p.1 ||
+    match importChain g s1 (g.chain p.1) with
+    | (sa, none) => p.2.all (fun m => skip m || okB (importChain g sa (g.chain m)))
+    | _ => false)
+
+/-- `coldChunkOk` and `pairsOk` with one shared cold import of the root package -/
+def chunkOk (g : Graph) (r : Mod) (skip : Mod → Bool) (ms : List Mod) (pairs : List (Mod × List Mod)) : Bool :=
+  match importChain g (fresh g) [r] with
+  | (s1, none) =>
+    (s1.isPresent r && ms.all (fun m => viaOk g (fresh g) s1 r m && (skip m || okB (importChain g s1 (g.chain m)))))
+      && pairsOk g s1 skip pairs
+  | _ => false
+
+theorem cold_of_chunkOk (g : Graph) (r : Mod) (skip : Mod → Bool) (ms : List Mod) (pairs : List (Mod × List Mod))
+    (h : chunkOk g r skip ms pairs = true) : coldChunkOk g r skip ms = true := by
+  unfold chunkOk at h
+  unfold coldChunkOk
+  split at h
+  · rename_i s1 heq
+    rw [Bool.and_eq_true] at h
+    exact h.1
+  · cases h
+
+theorem pairs_of_chunkOk (g : Graph) (r : Mod) (skip : Mod → Bool) (ms : List Mod) (pairs : List (Mod × List Mod))
+    (h : chunkOk g r skip ms pairs = true) :
+    ∀ p ∈ pairs, skip p.1 = false → (importChain g (fresh g) [r]).1.isPresent p.1 = false →
+      (importChain g (importChain g (fresh g) [r]).1 (g.chain p.1)).2 = none ∧
+      ∀ m ∈ p.2, skip m = false →
+        (importChain g (importChain g (importChain g (fresh g) [r]).1 (g.chain p.1)).1 (g.chain m)).2 = none := by
+  unfold chunkOk at h
+  split at h
+  · rename_i s1 heq
+    simp only [Bool.and_eq_true] at h
+    have hp := h.2
+    unfold pairsOk at hp
+    simp only [List.all_eq_true] at hp
+    intro p hpm hsk hpr
+    rw [heq] at hpr ⊢
+    have := hp p hpm
+    simp only [hsk, Bool.false_or, Bool.or_eq_true] at this
+    rcases this with habs | hload
+    · simp only at hpr; rw [hpr] at habs; cases habs
+    · split at hload
+      · rename_i sa heqa
+        simp only at heqa ⊢
+        rw [heqa]
+        refine ⟨rfl, ?_⟩
+        intro m hm hskm
+        simp only [List.all_eq_true] at hload
+        have := hload m hm
+        simpa [hskm, okB] using this
+      · cases hload
+  · cases h
+
+/-! ## a whole sequence in one interpreter -/
+
+/-- the root package imports cold, and then every import of the sequence succeeds -/
+def sweepOk (g : Graph) (r : Mod) (ms : List Mod) : Bool :=
+  match importChain g (fresh g) [r] with
+  | (s1, none) => (importAll g s1 ms).2.all (·.isNone)
+  | _ => false
+
+theorem all_of_sweepOk (g : Graph) (r : Mod) (ms : List Mod) (h : sweepOk g r ms = true) :
+    ∀ e ∈ (importAll g (importChain g (fresh g) [r]).1 ms).2, e = none := by
+  unfold sweepOk at h
+  split at h
+  · rename_i s1 heq
+    rw [heq]
+    simp only [List.all_eq_true] at h
+    intro e he
+    have := h e he
+    cases e with
+    | none => rfl
+    | some _ => simp at this
+  · cases h
+
 end Ioflo.Imports
